@@ -66,6 +66,9 @@ class Gen:
             return b"I" + struct.pack("<q", r.choice([2 ** 40, -2 ** 40, 2 ** 63 - 1, -2 ** 63, 6442450944, 2 ** 31, r.randrange(-2 ** 62, 2 ** 62)]))
         if k == "l":
             v = r.choice([0, 2 ** 15, 2 ** 15 - 1, 2 ** 30, 2 ** 31, -2 ** 31 - 1, 2 ** 64, -2 ** 100, 10 ** 30, r.randrange(-2 ** 70, 2 ** 70)])
+            if hashable_only:
+                # inside sets / dict keys: a Python 2 long equal to an int element (0L == 0) would be merged by the set
+                v = r.choice([2 ** 31, -2 ** 31 - 1, 2 ** 64, -2 ** 100, 10 ** 30, 2 ** 40 + r.randrange(2 ** 60)])
             tb, idx = self.flag("l", True, True)
             self.finish(idx, True)
             a = abs(v)
